@@ -19,7 +19,9 @@ ck.assumptions = [
     'torn-write model: after a crash the file holds a prefix of the bytes written since the last completed fsync; bytes still in the BufWriter are lost',
     'crc32fast::hash uninterpreted per length; bitcode as image table (see C10)',
     'rotation not triggered (default 512 MiB limit)',
-    'NOT covered: that the recovered *store* equals a prefix of the writes (SlabRouter::{put_durable, recover, apply_wal_entry, checkpoint}, snapshots): slab state is outside the executor; '
+    'T1: File::create on the live path truncates the same inode (older handles still write to it), the truncation itself is taken as durable; BufWriter::drop flushes its buffer through its own handle',
+    'L1: SlabRouter::put/delete (the in-memory apply), EntityIndex and classify_key are stubs; only the order log -> fsync -> apply and the error path are decided',
+    'NOT covered: that the recovered *store* equals a prefix of the writes (SlabRouter::{recover, apply_wal_entry, checkpoint}, snapshots): slab state is outside the executor; '
     'this check decides "every acknowledged log record is read back, in order, after any crash sequence" only',
 ]
 
@@ -41,8 +43,12 @@ run_wal_obligations(ck, ex, sc, K, LENS, 'tensor')
 # ------------------------------------------------------------------ manual sync: acknowledged = covered by a later sync()
 ck.declare('S1_synced_records_survive', 'manual sync mode: append r1, append r2, sync(), append r3 (unsynced); crash at every length >= the synced length',
            'replay is Ok, starts with r1 r2 (acknowledged by the sync) and contains nothing but a prefix of r1 r2 r3')
+ck.declare('T1_truncate_then_continue', 'manual sync mode: append r1 (still buffered), truncate() [the checkpoint step], append r2, sync(), append r3 (unsynced); crash at every length >= the synced length',
+           'replay is Ok, starts with r2 and contains nothing but a prefix of r2 r3: nothing written before the truncation comes back, nothing acknowledged after it is lost')
 SM = P.variant_index('SyncMode', 'Manual')
-for L in LENS[:1]:
+
+
+def manual_scenario(obl, steps, acked, allnames, L):
     st = ex.new_state()
     st.env['codec_len'] = L
     for i in (1, 2, 3):
@@ -53,43 +59,150 @@ for L in LENS[:1]:
     good = [r for r in res if r.status == 'return' and r.retval.variant == 'Ok']
     if len(good) != 1:
         ck.inconclusive.append('manual-mode open failed')
-    else:
-        cur = good[0].st
-        cur.roots['wal'] = ref(good[0].retval.fields[('Ok', 0)])
-        okflag = True
-        for step in ('r1', 'r2', 'sync', 'r3'):
-            if step == 'sync':
-                rs = sc.run(cur, 'TensorWal::sync', [cur.roots['wal']])
-            else:
-                rs = sc.run(cur, 'TensorWal::append', [cur.roots['wal'], ref(cur.roots[step])])
-            ck.note_path_problem(rs, 'manual ' + step)
-            g = [r for r in rs if r.status == 'return' and r.retval.variant == 'Ok']
-            if len(g) != 1:
-                ck.inconclusive.append(f'manual-mode {step}: {len(rs)} outcomes')
-                okflag = False
-                break
-            cur = g[0].st
-        if okflag:
-            f = sc.file(cur)
-            synced = f.synced
-            ck.notes.append(f'manual mode: file length {len(f.data)}, synced {synced}')
-            # bytes of r3 still sit in the BufWriter: also explore "flushed by the OS but not synced" by flushing first
-            rs = sc.run(cur, 'TensorWal::flush', [cur.roots['wal']])
-            g = [r for r in rs if r.status == 'return']
-            variants = [cur] + ([g[0].st] if g else [])
-            for base in variants:
-                fl = sc.file(base)
-                for cut in range(fl.synced, len(fl.data) + 1):
-                    crashed = sc.crash(base, cut)
-                    for (s1, wp, e1) in sc.open(crashed, f'manual reopen cut={cut}'):
-                        wit0 = {'wal': 'tensor-manual', 'cut': cut, 'synced': fl.synced, 'len': len(fl.data)}
-                        if wp is None:
-                            ck.require(ex, 'S1_synced_records_survive', s1.pc, None, z3.BoolVal(False), lambda m, w=dict(wit0, outcome=e1): w, lambda m, w: 'manual-sync')
-                            continue
-                        for (r, got, e2) in sc.replay(s1, 'manual replay'):
-                            names = [getattr(g_, 'lazy', None) for g_ in (got or [])]
-                            good_ = e2 is None and names[:2] == ['r1', 'r2'] and names == ['r1', 'r2', 'r3'][:len(names)]
-                            ck.require(ex, 'S1_synced_records_survive', r.pc, None, z3.BoolVal(good_), lambda m, w=dict(wit0, outcome=e2 or names): w, lambda m, w: 'manual-sync')
+        return
+    cur = good[0].st
+    cur.roots['wal'] = ref(good[0].retval.fields[('Ok', 0)])
+    for step in steps:
+        if step in ('sync', 'truncate'):
+            rs = sc.run(cur, 'TensorWal::' + step, [cur.roots['wal']])
+        else:
+            rs = sc.run(cur, 'TensorWal::append', [cur.roots['wal'], ref(cur.roots[step])])
+        ck.note_path_problem(rs, f'{obl} {step}')
+        g = [r for r in rs if r.status == 'return' and r.retval.variant == 'Ok']
+        if len(g) != 1:
+            ck.inconclusive.append(f'{obl} {step}: {len(rs)} outcomes')
+            return
+        cur = g[0].st
+    f = sc.file(cur)
+    ck.notes.append(f'{obl}: file length {len(f.data)}, synced {f.synced}')
+    # bytes of r3 still sit in the BufWriter: also explore "flushed by the OS but not synced" by flushing first
+    rs = sc.run(cur, 'TensorWal::flush', [cur.roots['wal']])
+    g = [r for r in rs if r.status == 'return']
+    variants = [cur] + ([g[0].st] if g else [])
+    for base in variants:
+        fl = sc.file(base)
+        for cut in range(fl.synced, len(fl.data) + 1):
+            crashed = sc.crash(base, cut)
+            for (s1, wp, e1) in sc.open(crashed, f'{obl} reopen cut={cut}'):
+                wit0 = {'wal': 'tensor-manual', 'steps': list(steps), 'cut': cut, 'synced': fl.synced, 'len': len(fl.data)}
+                if wp is None:
+                    ck.require(ex, obl, s1.pc, None, z3.BoolVal(False), lambda m, w=dict(wit0, outcome=e1): w, lambda m, w: 'manual-sync')
+                    continue
+                for (r, got, e2) in sc.replay(s1, f'{obl} replay'):
+                    names = [getattr(g_, 'lazy', None) for g_ in (got or [])]
+                    good_ = e2 is None and names[:len(acked)] == acked and names == allnames[:len(names)]
+                    ck.require(ex, obl, r.pc, None, z3.BoolVal(good_), lambda m, w=dict(wit0, outcome=e2 or names): w, lambda m, w: 'manual-sync')
+
+
+for L in LENS[:1]:
+    manual_scenario('S1_synced_records_survive', ('r1', 'r2', 'sync', 'r3'), ['r1', 'r2'], ['r1', 'r2', 'r3'], L)
+    manual_scenario('T1_truncate_then_continue', ('r1', 'truncate', 'r2', 'sync', 'r3'), ['r2'], ['r2', 'r3'], L)
+
+# ------------------------------------------------------------------ L: log-before-apply in SlabRouter::{put_durable, delete_durable}
+# The real TensorWal (file model) sits behind `self.wal`; the slabs are opaque (put/delete record that they were called).
+# Decided: for a non-cache key the record of the write is wholly on disk and fsynced before the in-memory apply, a WAL
+# failure (size limit, rotation off) prevents the apply, and cache keys are never logged.  Slab contents are not modelled.
+from mirsym.models import some as _some, none as _none
+ck.declare('L1_log_before_apply', 'put_durable / delete_durable, one call, arbitrary key class, WAL size limit symbolic',
+           'Ok on a durable key => the MetadataSet/MetadataDelete record for that key is complete and fsynced in the log before the slab is touched, and it is the last record replay returns; '
+           'WAL error => slab untouched; cache keys => nothing logged')
+exl = ck.executor('tensor_store', unroll=40, default_maxlen=1, max_paths=50000)
+Pl = exl.prog
+KC = {n: Pl.variant_index('KeyClass', n) for n in Pl.variants('KeyClass')}
+
+
+def ov_classify(c):
+    d = z3.BitVec(c.st.fresh_name('keyclass'), 64)
+    c.st.assume(z3.Or([d == v for v in KC.values()]))
+    c.st.env['keyclass'] = d
+    return Enum('KeyClass', d, {})
+
+
+def ov_apply(kind):
+    def f(c):
+        c.st.notes.append(('apply', kind, len(fs(c.st).get('wal', FileObj()).data), fs(c.st).get('wal', FileObj()).synced))
+        return ok(UNIT, 'Result<(), SlabRouterError>')
+    return f
+
+
+exl.extra_models.update({'SlabRouter::classify_key': ov_classify, 'SlabRouter::put': ov_apply('put'), 'SlabRouter::delete': ov_apply('delete'),
+                         'EntityIndex::get_or_create': lambda c: c.st.fresh('EntityId', c.st.fresh_name('eid')),
+                         'EntityIndex::get': lambda c: c.st.fresh('std::option::Option<EntityId>', c.st.fresh_name('idxget')),
+                         '<TensorData as Clone>::clone': lambda c: c.args[0].load(c.st)})
+scl = WalScenario(ck, exl, 'TensorWal::open', 'TensorWal::append', 'TensorWal::replay', 'WalEntry', open_args=lambda st: [cfg_for(st)])
+_cfg_cache = {}
+
+
+def cfg_for(st):
+    sub = st.clone()
+    sub.frames = []
+    exl.call(sub, '<WalConfig as Default>::default', [])
+    res = exl.run(sub)
+    cfg = res[0].retval
+    cfg.fields[Pl.field('WalConfig', 'auto_rotate')] = z3.BoolVal(False)
+    cfg.fields[Pl.field('WalConfig', 'max_size_bytes')] = Int(z3.BitVec('max_size', 64), False)
+    return cfg
+
+
+applied = refused = 0
+for op in ('put_durable', 'delete_durable'):
+    st = exl.new_state()
+    st.env['codec_len'] = 2
+    st.assume(z3.ULT(z3.BitVec('max_size', 64), z3.BitVecVal(1 << 40, 64)))
+    opened = scl.open(st, 'router wal')
+    good = [o for o in opened if o[1] is not None]
+    if len(good) != 1:
+        ck.inconclusive.append('log-before-apply: wal open failed')
+        continue
+    st = good[0][0]
+    walobj = st.roots['wal'].load(st)
+    router = Struct('SlabRouter', {Pl.field('SlabRouter', 'wal'): _some(Struct('Mutex', {'data': Cell(val=walobj)}), 'Option<Mutex<TensorWal>>')}, lazy='R')
+    st.roots['router'] = router
+    key = Str(z3.BitVec('key', 64))
+    args = [ref(router), ref(key)] + ([st.fresh('TensorData', 'value')] if op == 'put_durable' else [])
+    res = scl.run(st, 'SlabRouter::' + op, args)
+    ck.note_path_problem(res, op)
+    for r in res:
+        wit = lambda m, op=op, r=r: {'router_op': op, 'key_class': mval(m, r.st.env['keyclass']) if 'keyclass' in r.st.env else None, 'max_size': mval(m, z3.BitVec('max_size', 64))}
+        if r.status == 'panic':
+            ck.require(exl, 'L1_log_before_apply', r.pc, None, z3.BoolVal(False), wit, lambda m, w: 'router-panic')
+            continue
+        if r.status != 'return':
+            continue
+        f = r.st
+        apps = [x for x in f.notes if x[0] == 'apply']
+        fl = scl.file(f)
+        kc = f.env.get('keyclass')
+        is_cache = kc == KC['Cache']
+        if r.retval.variant == 'Ok':
+            applied += 1
+            # durable keys: something was logged and synced before the apply
+            cs = [z3.BoolVal(len(apps) == 1)]
+            if apps:
+                logged = apps[0][2] > 0 and apps[0][3] == apps[0][2]
+                cs.append(z3.If(is_cache, z3.BoolVal(apps[0][2] == 0), z3.BoolVal(logged)))
+            ck.require(exl, 'L1_log_before_apply', r.pc, None, z3.And(cs), wit, lambda m, w: 'apply-before-log')
+            if len(fl.data) > 0:
+                # restart and replay: the last record is this write, for this key
+                s3 = scl.crash(f, len(fl.data))
+                for (s4, wp4, e4) in scl.open(s3, 'router reopen'):
+                    if wp4 is None:
+                        ck.require(exl, 'L1_log_before_apply', s4.pc, None, z3.BoolVal(False), wit, lambda m, w: 'router-reopen')
+                        continue
+                    for (r5, got, e5) in scl.replay(s4, 'router replay'):
+                        want = 'MetadataSet' if op == 'put_durable' else 'MetadataDelete'
+                        okk = e5 is None and got and isinstance(got[-1], Enum) and got[-1].variant == want
+                        concl = z3.BoolVal(bool(okk))
+                        if okk:
+                            concl = got[-1].fields[(want, 0)].id == key.id
+                        ck.require(exl, 'L1_log_before_apply', r5.pc, None, concl, wit, lambda m, w: 'write-not-in-log')
+        else:
+            refused += 1
+            ck.require(exl, 'L1_log_before_apply', r.pc, None, z3.BoolVal(len(apps) == 0), wit, lambda m, w: 'applied-despite-wal-error')
+if applied == 0 or refused == 0:
+    ck.inconclusive.append(f'vacuous: durable op applied on {applied} paths, refused on {refused}')
+ck.notes.append(f'put/delete_durable: applied on {applied} paths, refused (WAL error) on {refused}')
+ck.functions += ['SlabRouter::put_durable', 'SlabRouter::delete_durable']
 
 # ------------------------------------------------------------------ native replay
 for v in ck.violations:
